@@ -622,6 +622,9 @@ func TestC15(t *testing.T) {
 		tr.Stats["multi-app-worlds"] = len(worlds)
 	}
 
+	// ---- oracle feed histories through the unwrapped band / market begin-blockers ----------------------------------
+	c15FeedCampaign(t, tr)
+
 	// ---- synthetic counter/list mismatches: model of the sweep prelude vs the real sweeps (not findings) ------
 	{
 		w := c15NewWorld(t, tr, 12)
